@@ -326,6 +326,8 @@ pub struct JunitCase {
     /// "pass" | "fail" | "skip" | "error"
     pub mark: String,
     pub failure_rules: Vec<String>,
+    /// character data of the case's <failure> element(s), unescaped
+    pub failure_text: String,
 }
 
 pub fn parse_junit(text: &str) -> Result<Vec<JunitCase>, String> {
@@ -335,6 +337,7 @@ pub fn parse_junit(text: &str) -> Result<Vec<JunitCase>, String> {
     let mut suite = String::new();
     let mut cur: Option<JunitCase> = None;
     let mut depth = 0i32;
+    let mut in_failure = false;
     let attr = |e: &quick_xml::events::BytesStart, k: &str| -> Option<String> {
         e.attributes().flatten().find(|a| a.key.as_ref() == k.as_bytes()).and_then(|a| a.unescape_value().ok().map(|v| v.to_string()))
     };
@@ -366,9 +369,10 @@ pub fn parse_junit(text: &str) -> Result<Vec<JunitCase>, String> {
                             Some("skip") => "skip",
                             _ => "pass",
                         };
-                        cur = Some(JunitCase { suite: suite.clone(), name: attr(&e, "name").unwrap_or_default(), mark: mark.into(), failure_rules: vec![] });
+                        cur = Some(JunitCase { suite: suite.clone(), name: attr(&e, "name").unwrap_or_default(), mark: mark.into(), failure_rules: vec![], failure_text: String::new() });
                     }
                     "failure" => {
+                        in_failure = true;
                         if let Some(c) = cur.as_mut() {
                             c.mark = "fail".into();
                             if let Some(m) = attr(&e, "message") {
@@ -390,13 +394,23 @@ pub fn parse_junit(text: &str) -> Result<Vec<JunitCase>, String> {
                 }
                 depth += 1;
             }
-            Ok(Event::End(_)) => depth -= 1,
-            // character data must be well-formed too: a bare `&` or `<` is not XML
-            Ok(Event::Text(t)) => {
-                if let Err(e) = t.unescape() {
-                    return Err(format!("XML error in character data: {}", e));
+            Ok(Event::End(e)) => {
+                if e.name().as_ref() == b"failure" {
+                    in_failure = false;
                 }
+                depth -= 1;
             }
+            // character data must be well-formed too: a bare `&` or `<` is not XML
+            Ok(Event::Text(t)) => match t.unescape() {
+                Err(e) => return Err(format!("XML error in character data: {}", e)),
+                Ok(txt) => {
+                    if in_failure {
+                        if let Some(c) = cur.as_mut() {
+                            c.failure_text.push_str(&txt);
+                        }
+                    }
+                }
+            },
             Ok(_) => {}
         }
     }
